@@ -19,7 +19,10 @@ RULE = (
     "identical expressions over the same names with different numeric data (bare and nested inside a BinaryOp), "
     "M's own leaves as roots, each combined with a prefix action {build only, evaluate, compile value / gradient / "
     "Jacobian / Hessian, degree, solve auto, solve SLSQP}, plus two flood actions that push 1100 compiles and 4200 "
-    "gradients (beyond LRU capacity) through the caches.  Every execution runs in a forked child of a pristine "
+    "gradients (beyond LRU capacity) through the caches, plus ADDRESS-REUSE steps: N (a variant of M) lives, acts and "
+    "dies, and the nodes of M are then given the addresses (id()) of N's dead nodes - the allocator's choice is an "
+    "environment answer decided by the harness through a module-global id seam, only addresses verified dead are "
+    "handed out.  Every execution runs in a forked child of a pristine "
     "parent (no optyx object ever built in it) and its observations on M (values, symbolic and compiled "
     "derivatives, degree, variables, bounds, solve results under auto and SLSQP) are compared for exact equality "
     "with M observed alone in such a child.  transitions = prefix actions + observations executed on the real "
@@ -125,7 +128,68 @@ def model_builders():
     }
 
 
-ACTIONS = ("build", "evaluate", "compile", "degree", "solve-auto", "solve-SLSQP", "nested-compile", "roots")
+ACTIONS = ("build", "evaluate", "compile", "degree", "solve-auto", "solve-SLSQP", "nested-compile", "roots", "gradient")
+REUSE_ACTIONS = ("gradient", "degree", "compile", "solve-auto", "solve-SLSQP", "evaluate")
+
+
+class AddressReuse:
+    """Environment seam for object addresses.  CPython may give a new object the address (= id()) of any object
+    that has died; which one is allocator luck.  Here the harness decides: optyx's modules see id() through this
+    function (a module global shadows the builtin - no source change), and the nodes of M are given the ids of the
+    nodes of a DEAD earlier model N at the same position.  Only ids of objects verified dead (absent from
+    gc.get_objects()) and not since re-occupied are handed out, so every answer is one the real allocator could give."""
+
+    def __init__(self):
+        self.map = {}        # real id -> id shown to optyx
+        self.inv = {}        # shown id -> real id of the object showing it (None: nobody)
+        self.fixed = set()
+
+    def show(self, real, d, live):
+        """Make the object at `real` show address d.  The shown ids stay a permutation of addresses: whoever
+        showed d before (an object really re-occupying it) is shown the address given up - also a realistic answer."""
+        if real in self.fixed:
+            return False
+        cur = self.map.get(real, real)
+        self.fixed.add(real)
+        if cur == d:
+            return True
+        other = self.inv.get(d, d if d in live else None)
+        if other is not None and other in self.fixed:
+            self.fixed.discard(real)
+            return False
+        self.map[real], self.inv[d] = d, real
+        if other is not None:
+            self.map[other], self.inv[cur] = cur, other
+        else:
+            self.inv[cur] = None
+        return True
+
+    def fake(self, obj):
+        i = id(obj)
+        return self.map.get(i, i)
+
+    def install(self):
+        import sys
+
+        for name, mod in list(sys.modules.items()):
+            if name == "optyx" or name.startswith("optyx."):
+                mod.__dict__["id"] = self.fake
+
+
+def spine(built):
+    """root objects of a model and the nodes along their left spines"""
+    out = []
+    for root in [built["e"]] + [c.expr for c in built["cons"]]:
+        node = root
+        for _ in range(600):
+            out.append(node)
+            nxt = getattr(node, "left", None)
+            if nxt is None:
+                nxt = getattr(node, "operand", None)
+            if nxt is None or isinstance(nxt, (int, float)):
+                break
+            node = nxt
+    return out
 
 
 def points(n):
@@ -151,6 +215,10 @@ def act(built, action):
             elif action == "degree":
                 e.degree
                 e.is_linear()
+            elif action == "gradient":
+                for v in V:
+                    autodiff.gradient(e, v)
+                autodiff.compute_jacobian([e] + [c.expr for c in built["cons"]], V)
             elif action == "solve-auto":
                 built["P"].solve()
             elif action == "solve-SLSQP":
@@ -229,19 +297,53 @@ def observe(built):
 
 def execute(model, prefix):
     """Runs inside the forked child: the adversarial prefix, then the observation of M."""
+    import gc
+
     B = model_builders()
+    seam = None
+    dead_ids = []
     for step in prefix:
         if step[0] == "flood":
             flood(step[1])
+        elif step[0] == "reuse":
+            # N lives and dies; the addresses of its nodes become available to later objects
+            _, variant, action = step
+            if seam is None:
+                seam = AddressReuse()
+                seam.install()
+            b = B[model](variant)
+            ids = [id(o) for o in spine(b)]
+            act(b, action)
+            del b
+            gc.collect()
+            still_alive = {id(o) for o in gc.get_objects()}
+            # positions whose node really died (a node kept alive by a sound cache keeps its address for ever)
+            dead_ids.append([i if i not in still_alive else None for i in ids])
         else:
             _, variant, action = step
             act(B[model](variant), action)
-    return observe(B[model](None))
+    bm = B[model](None)
+    if seam is not None:
+        gc.collect()
+        live = {id(o) for o in gc.get_objects()}
+        sp = spine(bm)
+        tracked = all(id(o) in live for o in sp)
+        n_set = 0
+        if tracked:
+            for ids in dead_ids:
+                for pos, d in enumerate(ids):
+                    if d is not None and pos < len(sp) and seam.show(id(sp[pos]), d, live):
+                        n_set += 1
+        obs = observe(bm)
+        obs["_reuse"] = (n_set, tracked)
+        return obs
+    return observe(bm)
 
 
 def menu():
     m = [("adv", v, a) for v in VARIANTS for a in ACTIONS]
     m += [("flood", "compiles"), ("flood", "gradients")]
+    m += [("reuse", v, a) for v in VARIANTS for a in REUSE_ACTIONS]
     return m
 
 
@@ -255,7 +357,8 @@ def histories(tier):
     for a in M:
         yield (a,)
     if tier == "quick":
-        core = [x for x in M if x[0] == "flood" or (x[1] in ("same", "pvalue", "data", "bounds") and x[2] in ("compile", "roots", "solve-auto", "nested-compile"))]
+        core = [x for x in M if x[0] == "flood" or (x[0] == "adv" and x[1] in ("same", "pvalue", "data", "bounds") and x[2] in ("compile", "roots", "solve-auto", "nested-compile"))
+                or x in (("reuse", "data", "gradient"), ("reuse", "pvalue", "degree"))]
         for a in core:
             for b in core:
                 yield (a, b)
@@ -263,7 +366,8 @@ def histories(tier):
         for a in M:
             for b in M:
                 yield (a, b)
-        core = [x for x in M if x[0] == "flood" or (x[1] in ("same", "pvalue", "data") and x[2] in ("compile", "roots", "solve-auto"))]
+        core = [x for x in M if x[0] == "flood" or (x[0] == "adv" and x[1] in ("same", "pvalue", "data") and x[2] in ("compile", "roots", "solve-auto"))
+                or (x[0] == "reuse" and x[1] == "data" and x[2] in ("gradient", "degree"))]
         for t in itertools.product(core, repeat=3):
             yield t
 
@@ -274,6 +378,9 @@ def check_history(model, prefix, baseline):
     if st != "ok":
         fails.add("harness:child-exception", model=model, prefix=prefix, text=obs[-400:])
         return fails
+    reuse = obs.pop("_reuse", None)
+    if reuse is not None:
+        fails.reuse = reuse
     for key in baseline:
         if obs.get(key) != baseline[key]:
             fails.add("observation-depends-on-earlier-models:" + key, model=model, prefix=prefix, got=obs.get(key),
@@ -303,6 +410,10 @@ def explore(item, tier, seed):
         if not pristine():
             raise RuntimeError("worker process lost its pristine state")
         fs = check_history(model, prefix, baseline)
+        ru = getattr(fs, "reuse", None)
+        if ru is not None:
+            rep.outcomes["address-reuse:%s" % ("nodes-of-M-given-dead-addresses" if ru[0] else "no-dead-address (N kept alive by a cache)")] += 1
+            rep.extra["address_reuse_collisions"] = rep.extra.get("address_reuse_collisions", 0) + ru[0]
         rep.states += 1
         rep.transitions += len(prefix) + len(baseline)
         rep.evaluations += len(baseline)
